@@ -149,9 +149,23 @@ def pad_mixed(n):
     return [(1, " # x\n"), (q, "\t#y\n\n "), (r, " "), (1, "\n")]
 
 
+def pad_commentlines_bars(n):
+    """comment lines whose text looks like chain links and layout: `|`, `|@`, `#`, quotes"""
+    q, r = divmod(n - 1, 4)
+    units = ["#|@\n", "# |\n", "##|\n", "#`|\n", "#\"|\n"]
+    return [(1, "\n")] + [(q // len(units) + (1 if i < q % len(units) else 0), u) for i, u in enumerate(units)] + [(r, "\n")]
+
+
+def pad_comment1_bars(n):
+    if n < 5:
+        return pad_nl(n)
+    return [(1, " #"), ((n - 3) // 2, "|."), ((n - 3) % 2, "|"), (1, "\n")]
+
+
 SHAPES = [("newlines", pad_nl), ("spaces-before", pad_lead), ("spaces-after", pad_trail), ("tabs-around", pad_tabs),
           ("one-long-comment", pad_comment1), ("comment-lines", pad_commentlines), ("blank-lines", pad_blanklines),
-          ("crlf", pad_crlf), ("mixed", pad_mixed)]
+          ("crlf", pad_crlf), ("mixed", pad_mixed),
+          ("comment-lines-with-bars", pad_commentlines_bars), ("one-long-comment-with-bars", pad_comment1_bars)]
 
 
 def norm_pieces(ps):
@@ -445,6 +459,7 @@ def e2e(chk):
                 ("string-mixed", [(1, 's := "'), (L, "b c"), (1, '"\n')], '(s := "%s")' % ("b c" * L)),
                 ("raw-string", [(1, "r := `"), (L, "a"), (1, "`\nr.p\n")], "(r := `%s`)\nr.p()" % ("a" * L)),
                 ("raw-string-lines", [(1, "r := `"), (L, "a\n"), (1, "`\n")], "(r := `%s`)" % ("a\n" * L)),
+                ("raw-string-crlf", [(1, "r := `"), (L, "a\r\n"), (1, "`\n")], "(r := `%s`)" % ("a\r\n" * L)),
                 ("comment", [(1, "x := 1 #"), (L, "c"), (1, "\nx.p\n")], "(x := 1)\nx.p()"),
                 ("final-comment", [(1, "x := 1\nx.p #"), (L, "c")], "(x := 1)\nx.p()"),
                 ("identifier", [(1, "k"), (L, "a"), (1, " := 1\n")], "(k%s := 1)" % ("a" * L)),
@@ -454,7 +469,7 @@ def e2e(chk):
                  '(s := "%s#{ 1 }%s")' % ("a" * L, "b" * L)),
             ]
             if chk.tier == "quick" and off:
-                toks = toks[:1] + toks[2:3] + toks[4:5] + toks[6:7]
+                toks = toks[:1] + toks[2:3] + toks[5:6] + toks[7:8]
             for kind, ps, wanted in toks:
                 tlen = max(n * len(u) for n, u in ps if n == L)   # bytes of the repeated body of the token
                 ps = norm_pieces(pre + ps)
@@ -555,11 +570,11 @@ def main(chk):
     chk.cov["input_distribution"] = hist
     chk.cov["rule"] = (
         "implementation: %d hand-written base programs x EVERY line break x padding of 0..5 extra bytes and of total size "
-        "1020..1030, 2040..2056, 3066..3078, 4088..4104 (9 shapes rotated: newlines, spaces before/after, tabs, one long comment, "
-        "comment lines, blank lines with blanks, CR LF, mixed) x reader chunk sizes 1,2,3,5,7,1023,1024,2047,2048,2049,4095,4096,4097,whole "
+        "1020..1030, 2040..2056, 3066..3078, 4088..4104 (11 shapes rotated: newlines, spaces before/after, tabs, one long comment, "
+        "comment lines, blank lines with blanks, CR LF, mixed, comment lines and a long comment whose text is `|`, `|@`, `#`, quotes) x reader chunk sizes 1,2,3,5,7,1023,1024,2047,2048,2049,4095,4096,4097,whole "
         "(+ last-read-with-EOF and random schedules on a fifth/seventh of the texts); sampled line breaks of native/*.pangaea and "
-        "example/*.pangaea (%d files classified); every program unchanged through every chunking; tokens (string, raw string with and "
-        "without line ends, comment, final comment, identifier, identifier?, private identifier, embedded string) of the lengths "
+        "example/*.pangaea (%d files classified); every program unchanged through every chunking; tokens (string, raw string with, "
+        "without and with CR LF line ends, comment, final comment, identifier, identifier?, private identifier, embedded string) of the lengths "
         "1..32, powers of two, 1000..1040, 2030..2060, 3060..3085, 4085..4110, every 250 up to 5000 (quick: about every second) at two "
         "offsets x the %d chunkings; seeded random tail (1-3 breaks padded at once, sizes up to 5000, random schedules). "
         "Coq side: matcher strings (padding shapes x sizes x 15 followers, long-token shapes incl. unterminated/escaped, seeded fragment "
